@@ -276,6 +276,35 @@ def run(prog: Program, ctx: Ctx) -> None:  # noqa: PLR0912,PLR0915
                problem or f"after {labels_}: membership and lookup agree with the contents", where(meth_(itp._construct(pcont, [], {}), "__getitem__")))
     ctx.expect_min("Rf", n_hist, 300)
 
+    # ------------------------------------------------------------------ Rg expression-valued defaults
+    ctx.rule("Rg", "a default is what the visitor stores: an expression for anything but a literal. Two defaults that differ as source (another argument, another "
+                   "key, another attribute) are a changed default and are reported; the same source on both sides is not")
+    import ast as _ast
+
+    gex = prog.function("_griffe.expressions.get_expression")
+    mcls = prog.cls("_griffe.models.Module")
+    texts = ["Point(0, 0)", "Point(1, 1)", "Point(0, 0, z=1)", "dict(w=1)", "dict(w=2, h=3)", "LIMITS['low']", "LIMITS['high']", "cfg.low", "cfg.high", "(1, 2)", "(1, 3)", "[]", "[0]", "-1", "-2"]
+
+    def expr_of(text_: str, module_: Obj) -> object:
+        return tbl.it.call(gex, _ast.parse(text_, mode="eval").body, parent=module_)
+
+    n_g = 0
+    for t_old, t_new in _it.product(texts, repeat=2):
+        mo_, mn_ = tbl.it._construct(mcls, ["m"], {}), tbl.it._construct(mcls, ["m"], {})
+        tbl.it.steps = 0
+        try:
+            fo_, fn_ = (Obj(tbl.fcls, {"name": "f", "path": "m.f", "returns": None, "parameters": tbl.it._construct(tbl.pscls, [
+                Obj(tbl.pcls, {"name": "a", "kind": tbl.kind["positional_or_keyword"], "default": expr_of(t_, m_), "annotation": None, "docstring": None, "function": None})], {})}, label="f")
+                for t_, m_ in ((t_old, mo_), (t_new, mn_)))
+            names_g = sorted({b.cls.name for b in tbl.it.call(fn, fo_, fn_)})
+        except Raised as r:
+            names_g = [f"<raised {r.exc}>"]
+        want_g = [] if t_old == t_new else ["ParameterChangedDefaultBreakage"]
+        n_g += 1
+        ctx.ob("Rg", f"default-expression|{t_old} -> {t_new}", names_g == want_g,
+               f"`def f(a={t_old})` -> `def f(a={t_new})`: reported {names_g or 'nothing'}, expected {want_g or 'nothing'}", where(fn))
+    ctx.expect_min("Rg", n_g, 200)
+
     # ------------------------------------------------------------------ returns table
     ctx.rule("Re", "_returns_are_compatible: None -> anything is compatible, anything -> None is not")
     rc = prog.function("_griffe.diff._returns_are_compatible")
